@@ -217,7 +217,7 @@ def stage_args(repo, run):
     loop = loops[0]
     roles[loop.target.id] = "stage"
     # loop range: all stages
-    c0 = Canon(rename=roles)
+    c0 = Canon(rename=roles, env=inline_locals(fn))
     it = loop.iter
     okr = isinstance(it, ast.Call) and dotted(it.func) == "range" and len(it.args) == 1 and \
         c0.text(it.args[0]) in ("Sin.shape[-1]", "Sout.shape[-1]", "TAB.shape[0]", "len(TAB)")
